@@ -345,12 +345,97 @@ def history(srv, rng, res, ctl, hn):
             pass
 
 
+STALLS = [
+    ("sleep", lambda ms: [b"SLEEP", b"%d" % ms]),
+    # a script that keeps the command thread busy for about that long (no SLEEP command needed)
+    ("busy-script", lambda ms: [b"EVAL", b"local t = redis.call('TIME') local s = t[1] * 1000000 + t[2] repeat t = redis.call('TIME') "
+                                b"until t[1] * 1000000 + t[2] - s > tonumber(ARGV[1]) * 1000 return 1", b"0", b"%d" % ms]),
+]
+
+
+def stalled_pass(srv, res, rng):
+    """Disconnects that fall into the SAME event-loop pass as the push that would serve the
+    waiter: the pusher sends [stall ~150 ms, PUSH] in one write; while the command thread is
+    stalled, blocked clients close their sockets. When the loop resumes, the FIN and the push
+    are both already there - whatever order the loop looks at them in, a pushed element must
+    end up in the list or with a client that is still connected."""
+    ctl = srv.client(timeout=20)
+    for stall_name, stall in STALLS:
+        for pop in (b"BLPOP", b"BRPOP"):
+            for shape in ("only-waiter-dies", "first-dies-second-lives", "second-dies-first-lives", "both-die", "dies-multi-key"):
+                for order in ("waiters-first", "pusher-first"):
+                    key = b"sp:%d" % rng.randrange(10 ** 6)
+                    key2 = key + b":2"
+                    ctl.cmd("DEL", key, key2)
+                    pusher = srv.client(timeout=20) if order == "pusher-first" else None
+                    nw = 1 if shape in ("only-waiter-dies", "dies-multi-key") else 2
+                    ws = [srv.client(timeout=20) for _ in range(nw)]
+                    if pusher is None:
+                        pusher = srv.client(timeout=20)
+                    for w in ws:
+                        w.send(pop, *([key2, key] if shape == "dies-multi-key" else [key]), b"0")
+                        server.wait_loops(ctl, 3)
+                    dying = {"only-waiter-dies": [0], "first-dies-second-lives": [0], "second-dies-first-lives": [1], "both-die": [0, 1],
+                             "dies-multi-key": [0]}[shape]
+                    elems = [b"e1-%d" % rng.randrange(10 ** 9), b"e2-%d" % rng.randrange(10 ** 9)]
+                    pusher.send_raw(resp.encode(stall(150)) + resp.encode([b"RPUSH", key, elems[0]]) + resp.encode([b"RPUSH", key, elems[1]]))
+                    time.sleep(0.04)             # the command thread is inside the stall now
+                    for i in dying:
+                        ws[i].close()
+                    try:
+                        pusher.recv(timeout=20)
+                        pusher.recv(timeout=20)
+                        pusher.recv(timeout=20)
+                    except (Closed, Timeout):
+                        pass
+                    server.wait_loops(ctl, 5)
+                    delivered = []
+                    for i, w in enumerate(ws):
+                        if i in dying:
+                            continue
+                        r = w.try_recv(1.0)
+                        if isinstance(r, list) and len(r) == 2:
+                            delivered.append(r[1])
+                    remaining = ctl.cmd("LRANGE", key, 0, -1)
+                    res.evaluations += 1
+                    res.cell("stalled-pass", stall_name, pop.decode(), shape, order)
+                    live = nw - len(dying)
+                    if sorted(delivered + remaining) != sorted(elems):
+                        lost = [e for e in elems if e not in delivered + remaining]
+                        res.violation("lost/stalled-pass/%s" % shape if lost else "duplicated/stalled-pass/%s" % shape,
+                                      "%s (%s, %s): pusher sent [%s, RPUSH %s, RPUSH %s] in one write, blocked client(s) %s closed during the stall; "
+                                      "delivered to live clients %s, left in the list %s: %s" % (
+                                          shape, pop.decode(), order, stall_name, resp.show(elems[0]), resp.show(elems[1]), dying, resp.show(delivered),
+                                          resp.show(remaining), ("LOST " + resp.show(lost)) if lost else "duplicate"))
+                    elif live and len(delivered) != live:
+                        res.violation("not-served/stalled-pass/%s" % shape, "%s (%s, %s): a live blocked client was not served although %s remained in the list" % (
+                            shape, pop.decode(), order, resp.show(remaining)))
+                    for w in ws:
+                        w.close()
+                    pusher.close()
+                    server.wait_loops(ctl, 3)
+    reg = ctl.cmd("VERIF", "BLOCKED")
+    if isinstance(reg, list) and reg and reg[0]:
+        res.violation("residue/stalled-pass", "registrations left after all clients of the stalled-pass scenarios are gone: %s" % resp.show(reg[0]))
+    ctl.close()
+
+
 def stepwise_worker(wseed, binary, budget_s):
     rng = util.rng_for(wseed, "C13A")
     res = Result()
     srv = server.Server(binary).start()
     try:
         ctl = srv.client(timeout=20)
+        if wseed % 1000 == 0:
+            try:
+                stalled_pass(srv, res, rng)
+            except (Closed, Timeout) as e:
+                if not srv.alive():
+                    res.violation("server-died/stalled-pass", "exit %s\n%s" % (srv.exit_status(), srv.stderr_tail(1200)))
+                    srv.restart()
+                else:
+                    res.inconclusive.append("stalled-pass scenarios: %r" % (e,))
+                ctl = srv.client(timeout=20)
         t_end = time.time() + budget_s
         n = 0
         while time.time() < t_end:
@@ -505,6 +590,9 @@ def run(tier):
                        "still wait), and compares VERIF BLOCKED (registry + connection states) with the model; conservation at the end; "
                        "B: 20 s free-running stress (3 pushers, 7 blocking poppers, random disconnects and abandoned calls): "
                        "multiset(pushed) = delivered + remaining, nothing delivered twice, no nil before the timeout, empty registry at "
-                       "the end; cell = (action, shape)", t0,
+                       "the end; C: disconnects that land in the same event-loop pass as the serving push (pusher sends [stall 150 ms, "
+                       "RPUSH, RPUSH] in one write, blocked clients close during the stall; stall by SLEEP or by a busy script; 1-2 "
+                       "waiters, single / multi key, both connection orders): conservation and service of the live waiter; "
+                       "cell = (action, shape)", t0,
                        assumptions=["reference serving rule: earliest-blocked waiter of a key with data, after each command completes",
                                     "VERIF BLOCKED is read at quiescent points only (no wake-ups queued)"], min_cells=15)
